@@ -40,6 +40,11 @@ const (
 	// VFailClose: the gated Write of call C fails and, while that call is inside closeWithErr (at the point
 	// "reuse.conn.closing"), the transport is closed (Close held at "reuse.tclose.locked" until then).
 	VFailClose
+	// VReadFail: the server's reply to call C (whose gated Write is still running) arrives and the peer then
+	// breaks the connection: the reader's Read takes the reply off the socket and is descheduled before it
+	// returns; the Write of C fails and C, closing the connection, is descheduled inside the socket's Close;
+	// the reader goes on until it reads again; C goes on.
+	VReadFail
 )
 
 type Action struct {
@@ -72,6 +77,8 @@ func (a Action) Coq() string {
 		return "VTClose"
 	case VFailClose:
 		return hx.App("VFailClose", c)
+	case VReadFail:
+		return hx.App("VReadFail", c, hx.Ni(a.Tag))
 	}
 	return "?"
 }
@@ -135,11 +142,20 @@ type fconn struct {
 	rerr     error
 	closed   bool
 	idleRead int
+
+	reads       int // Read calls entered
+	holdRead    bool
+	readRel     chan struct{}
+	readParked  chan int // carries the number of Read calls entered when the reader was parked
+	holdClose   bool
+	closeRel    chan struct{}
+	closeParked chan struct{}
 }
 
 func (f *fconn) Read(p []byte) (int, error) {
 	f.mu.Lock()
 	defer f.mu.Unlock()
+	f.reads++
 	if len(f.buf) == 0 && f.rerr == nil && !f.closed {
 		f.idleRead++
 	}
@@ -149,6 +165,15 @@ func (f *fconn) Read(p []byte) (int, error) {
 	if len(f.buf) > 0 {
 		n := copy(p, f.buf)
 		f.buf = f.buf[n:]
+		if f.holdRead && len(f.buf) == 0 {
+			// the bytes are the reader's; it is descheduled before Read returns
+			f.holdRead = false
+			rel, at := f.readRel, f.reads
+			f.mu.Unlock()
+			f.readParked <- at
+			<-rel
+			f.mu.Lock()
+		}
 		return n, nil
 	}
 	if f.rerr != nil {
@@ -185,9 +210,17 @@ func (f *fconn) Close() error {
 	f.mu.Lock()
 	f.closed = true
 	f.cond.Broadcast()
+	hold, rel := f.holdClose, f.closeRel
+	f.holdClose = false
 	f.mu.Unlock()
+	if hold {
+		// the socket is closed; the closing goroutine is descheduled before Close returns
+		f.closeParked <- struct{}{}
+		<-rel
+	}
 	return nil
 }
+func (f *fconn) readCount() int { f.mu.Lock(); defer f.mu.Unlock(); return f.reads }
 func (f *fconn) isClosed() bool                   { f.mu.Lock(); defer f.mu.Unlock(); return f.closed }
 func (f *fconn) SetDeadline(time.Time) error      { return nil }
 func (f *fconn) SetReadDeadline(time.Time) error  { return nil }
@@ -249,7 +282,7 @@ func (w *world) dial(ctx context.Context) (transport.NetConn, error) {
 		return nil, errDial
 	}
 	w.mu.Lock()
-	f := &fconn{id: len(w.conns), w: w}
+	f := &fconn{id: len(w.conns), w: w, readParked: make(chan int, 1), closeParked: make(chan struct{}, 1)}
 	f.cond = sync.NewCond(&f.mu)
 	w.conns = append(w.conns, f)
 	w.mu.Unlock()
@@ -322,6 +355,9 @@ func (v *View) Applicable(a Action) bool {
 		return !v.TClosed
 	case VFailClose:
 		return v.St[a.C] == SInWrite && !v.TClosed
+	case VReadFail:
+		o, has := v.Outst[v.Conn[a.C]]
+		return v.St[a.C] == SInWrite && !v.TClosed && v.ReaderOK[v.Conn[a.C]] && has && o == a.C
 	}
 	return false
 }
@@ -715,6 +751,40 @@ func Run(next func(v *View) *Action) (Script, []Obs, []int) {
 				}
 			}
 			outst = map[int]int{}
+		case VReadFail:
+			cr := calls[a.C]
+			w.mu.Lock()
+			gate := w.gates[a.C]
+			f := w.conns[cr.conn]
+			w.mu.Unlock()
+			rrel, crel := make(chan struct{}), make(chan struct{})
+			f.mu.Lock()
+			f.holdRead, f.readRel, f.holdClose, f.closeRel = true, rrel, true, crel
+			f.mu.Unlock()
+			f.feed(frame(a.Tag))
+			at := -1
+			select {
+			case at = <-f.readParked:
+			case <-time.After(wait):
+			}
+			gate <- io.ErrClosedPipe
+			select {
+			case <-f.closeParked:
+			case <-time.After(wait):
+			}
+			close(rrel) // the reader: takes the waiter, hands the reply over, reads again
+			for t0 := time.Now(); at >= 0 && f.readCount() <= at && time.Since(t0) < wait; {
+				time.Sleep(50 * time.Microsecond)
+			}
+			f.mu.Lock()
+			f.holdRead, f.holdClose = false, false
+			f.mu.Unlock()
+			close(crel) // the caller: leaves Close, looks for a reply
+			cr.replied = true
+			closedConn[cr.conn] = true
+			readerOK[cr.conn] = false
+			delete(outst, cr.conn)
+			expect[a.C] = true
 		case VFailClose:
 			cr := calls[a.C]
 			w.mu.Lock()
@@ -884,7 +954,10 @@ func Catalogue() map[string][]Action {
 	can := func(c int) Action { return Action{K: VCancel, C: c} }
 	tc := Action{K: VTClose}
 	fc := func(c int) Action { return Action{K: VFailClose, C: c} }
+	rf := func(c, tag int) Action { return Action{K: VReadFail, C: c, Tag: tag} }
 	return map[string][]Action{
+		"c02:reply-read-then-write-fails-new-conn":    {st(0), dl(0, true), rf(0, 100), st(1), dl(1, true), wok(1), fd(1, 101)},
+		"c02:reply-read-then-write-fails-reused-conn": {st(0), dl(0, true), wok(0), fd(0, 100), st(1), rf(1, 101), st(2), dl(2, true), wok(2), fd(1, 102)},
 		"c07:write-error-races-tclose":            {st(0), dl(0, true), fc(0), st(1)},
 		"c07:reused-write-error-races-tclose":     {st(0), dl(0, true), wok(0), fd(0, 100), st(1), st(2), dl(2, true), wok(2), fc(1), st(3)},
 		"c02:reply-while-waiting":                 {st(0), dl(0, true), wok(0), fd(0, 100)},
@@ -918,7 +991,7 @@ func RandomNext(r *hx.RNG, maxSteps int) func(v *View) *Action {
 		}
 		for try := 0; try < 80; try++ {
 			var a Action
-			w := []int{14, 14, 20, 8, 22, 5, 5, 1, 2}
+			w := []int{14, 14, 20, 8, 22, 5, 5, 1, 2, 3}
 			tot := 0
 			for _, x := range w {
 				tot += x
@@ -952,6 +1025,10 @@ func RandomNext(r *hx.RNG, maxSteps int) func(v *View) *Action {
 				}
 			case VEof:
 				a.N = r.Intn(v.NConns + 1)
+			case VReadFail:
+				tag++
+				a.Tag = tag
+				a.C = r.Intn(nextCall + 1)
 			default:
 				a.C = r.Intn(nextCall + 1)
 			}
